@@ -42,7 +42,8 @@ def plan(tier, prop):
                 "routers start pre-fragmented, then a healed load+read-back; "
                 "non-trivial = at least one router operation completed; "
                 "distinct = distinct abstract event traces",
-        "expected_probes": ["alloc_failed_natural", "alloc_failed_injected",
+        "expected_probes": ["deep_tree", "equal_tree_rebuilt", "same_tables_reloaded",
+                            "alloc_failed_natural", "alloc_failed_injected",
                             "multisource_error", "shared_keymask_merge", "numpy_keys", "extreme_key_mask", "routing_tree_subclass",
                             "empty_table", "big_table", "all_route_bits",
                             "clear", "readback", "op_timeout",
